@@ -3,10 +3,10 @@ import ast
 from collections import namedtuple
 
 from .model import AnalysisError, NotConst, fold, node_src, is_self_attr, call_name
-from .paths import Interp, Domain, Env, TOP, NONE, Const, TupleV, Exc, ORD, fmt_trace, Opaque
+from .paths import Interp, Domain, Env, TOP, NONE, Const, TupleV, Exc, ORD, fmt_trace, Opaque, Ctx
 from .report import walk_no_nested
 from . import wire, spec, exchange
-from .colls import ExactCollections, GenV
+from .colls import ExactCollections, GenV, DictV, deref, new_object
 
 LEVEL = "other"
 LEVEL_TEXT = (
@@ -125,6 +125,12 @@ class StoreDomain(ExactCollections, ReplyDomain):
             try:
                 return _lift(self.base.const(name))
             except NotConst:
+                # not a literal constant (e.g. a table that mentions exception classes): evaluate the display
+                expr = self.base.assigns[name]
+                if isinstance(expr, (ast.Tuple, ast.List, ast.Dict)) and all(isinstance(n, (ast.Tuple, ast.List, ast.Dict, ast.Constant, ast.Name, ast.Load, ast.expr_context)) for n in ast.walk(expr)):
+                    oks, excs = Interp(self, self.fn.node, self.prog).ev(expr, Env(), Ctx(self.fn.node))
+                    if len(oks) == 1 and not excs and _hashable_val(oks[0][0]):
+                        return oks[0][0]
                 return TOP
         return ReplyDomain.name_load(self, name, state, node)
 
@@ -141,9 +147,6 @@ class StoreDomain(ExactCollections, ReplyDomain):
         return ReplyDomain.attr_load(self, objval, node, state)
 
     def subscript_load(self, objval, idxval, node, state):
-        r = self.coll_subscript_load(objval, idxval, node, state)
-        if r is not None:
-            return r
         if isinstance(objval, Const) and isinstance(objval.v, bytes) and isinstance(node.slice, ast.Slice):
             return TOP, False
         return ReplyDomain.subscript_load(self, objval, idxval, node, state)
@@ -187,9 +190,15 @@ class StoreDomain(ExactCollections, ReplyDomain):
         return ReplyDomain.call(self, node, fval, args, kwargs, state)
 
 
-def _lift(v):
-    from .colls import DictV
+def _hashable_val(v):
+    try:
+        hash(v)
+        return True
+    except TypeError:
+        return False
 
+
+def _lift(v):
     if isinstance(v, dict):
         return DictV(tuple((_lift(k), _lift(x)) for k, x in v.items()))
     if isinstance(v, (set, frozenset)):
@@ -206,14 +215,14 @@ def _show(v):
         return v.tag
     if isinstance(v, TupleV):
         return "(%s)" % ", ".join(map(_show, v.items))
+    if isinstance(v, DictV):
+        return "{%s}" % ", ".join("%s: %s" % (_show(k), _show(x)) for k, x in v.items)
     return str(v)
 
 
 def script_eval(prog, mname, replies, nkeys=2, noreply=False, ignore_exc=False, full=False, oneshot=False, fault=None):
     """Evaluate any public wire method of Client end to end against a scripted sequence of reply lines / data blocks.
     -> (returned values, exception classes)"""
-    from .colls import DictV
-
     f = prog.method("Client", mname)
     exn = wire.exchange_names(prog)
     direct, readers = exchange.recv_reaching_functions(prog)
@@ -231,22 +240,20 @@ def script_eval(prog, mname, replies, nkeys=2, noreply=False, ignore_exc=False, 
             # a list, or (oneshot) an iterator that can be traversed only once, e.g. a generator
             env[p.name] = GenV(("caller", p.name), ks) if oneshot else TupleV(ks)
         elif p.name == "values":
-            env[p.name] = DictV(tuple((k, TOP) for k in ks))
+            new_object(env, p.name, "dict", DictV(tuple((k, TOP) for k in ks)))
         elif p.kind == "vararg":
             env[p.name] = TupleV(())
         elif p.kind == "kwarg":
-            env[p.name] = DictV(())
+            new_object(env, p.name, "dict", DictV(()))
         else:
             env[p.name] = Val("arg:" + p.name)
     outs = Interp(dom, f.node, prog).run(Env(env))
     if full:
         return outs
-    return [v for s_, v, t in outs.of("ret")], [e.cls for s_, e, t in outs.of("exc")]
+    return [deref(v, s_) for s_, v, t in outs.of("ret")], [e.cls for s_, e, t in outs.of("exc")]
 
 
 def has_top(v):
-    from .colls import DictV
-
     if v is TOP:
         return True
     if isinstance(v, TupleV):
@@ -265,6 +272,7 @@ def judge(outs, kind, pred):
     rets, excs = outs.of("ret"), outs.of("exc")
     definite, vague, good = [], [], 0
     for s, v, t in rets:
+        v = deref(v, s)  # list / dict objects by content
         if kind == "ret" and pred(v):
             good += 1
             continue
@@ -335,8 +343,6 @@ def storage_rows(prog, r3, keying_only=False):
 def retrieval_rows(prog, r3):
     """Decision rows of the retrieval family (also C04.R3), end to end: which key, which data block, which flags and
     which cas token reach the caller."""
-    from .colls import DictV
-
     def deser(k, data, flags):
         return Val("deserialize(%s, %r, %d)" % (k, data, flags))
 
